@@ -46,6 +46,18 @@ func vSameFeatures(a, b []gts.Feature) bool {
 	return ok
 }
 
+// vKeywords: one short keyword, or (odd shapes) eight 9-letter keywords whose joined text exceeds the 67-column wrap
+func vKeywords(shape int) []string {
+	if shape%2 == 0 {
+		return []string{vWordBytes("kw", 1)}
+	}
+	var ks []string
+	for i := 0; i < 8; i++ {
+		ks = append(ks, vWordBytes("kw"+string(rune('0'+i)), 1)+"keywordx")
+	}
+	return ks
+}
+
 func vC01(shape int) {
 	n := []int{4, 0, 12, 61}[shape%4]
 	data := vBytesIn("r", n, 33, 126)
@@ -74,8 +86,8 @@ func vC01(shape int) {
 	}
 	gb := GenBank{
 		Fields: GenBankFields{LocusName: vWordBytes("locus", 2), Molecule: gts.DNA, Topology: gts.Topology(vChoice("top", 2)), Division: "UNK",
-			Date: vValidDate(), Definition: vWordBytes("def", 2), Accession: vWordBytes("acc", 1), Version: vWordBytes("ver", 1),
-			Keywords: []string{vWordBytes("kw", 1)},
+			Date: vValidDate(), Definition: string(vBytesIn("def", 2, '.', 'z')), Accession: vWordBytes("acc", 1), Version: vWordBytes("ver", 1),
+			Keywords: vKeywords(shape),
 			Source:   Organism{vWordBytes("sp", 1), vWordBytes("org", 1), []string{vWordBytes("tax", 1), "x"}},
 			References: []Reference{{Number: 1, Info: "(bases 1 to 4)", Authors: vWordBytes("au", 1), Title: vWordBytes("ti", 1)}},
 			Comments:   []string{vWordBytes("cm", 2)},
@@ -111,6 +123,11 @@ func vC01(shape int) {
 	vAssert("same-date", vAnd(vAnd(f.Date.Year == g.Date.Year, f.Date.Month == g.Date.Month), f.Date.Day == g.Date.Day))
 	vAssert("same-header", vAnd(vAnd(f.Definition == g.Definition, f.Accession == g.Accession), f.Version == g.Version))
 	vAssert("same-source", vAnd(f.Source.Species == g.Source.Species, f.Source.Name == g.Source.Name))
+	for i := range f.Keywords {
+		if i < len(g.Keywords) {
+			vAssert("same-keywords", f.Keywords[i] == g.Keywords[i])
+		}
+	}
 	vAssert("same-counts", vAnd(vAnd(len(g.Keywords) == len(f.Keywords), len(g.References) == len(f.References)), vAnd(len(g.Comments) == len(f.Comments), len(g.DBLink) == len(f.DBLink))))
 	var text2 string
 	p2 := vPanics(func() { text2 = back.String() })
@@ -123,7 +140,7 @@ func vC01(shape int) {
 }
 
 //verif:harness prop=C01 quick=6 thorough=12 merge=concrete timeout=1500
-//verif:bounds bounded template records: residues 4 | 0 (CONTIG-only) | 12 | 61 symbolic printable bytes; feature table empty | source only | CDS (symbolic partial range on either strand; quoted, literal, toggle and multi-line qualifiers) + gene join; header strings of 1..2 symbolic letters each; symbolic valid calendar date (year 1000..9999); topology by choice
+//verif:bounds bounded template records: residues 4 | 0 (CONTIG-only) | 12 | 61 symbolic printable bytes; feature table empty | source only | CDS (symbolic partial range on either strand; quoted, literal, toggle and multi-line qualifiers) + gene join; header strings of 1..2 symbolic letters each (definition bytes over '.'..'z', so it may end in a period); keywords: one short, or eight long ones that wrap; symbolic valid calendar date (year 1000..9999); topology by choice
 //verif:assume time.Time.Format("02-Jan-2006") is modelled field by field for a valid date
 func VH_C01_roundtrip() {
 	ns := 6 + 6*vTier()
